@@ -65,6 +65,15 @@ func render09(items []sitem, env *env09, parts map[string]string, ctr *int, src,
 		case "let":
 			src.WriteString(fmt.Sprintf("<%% let %s = %s %%>", it.Name, vs09(it.Val)))
 			env.vars[it.Name] = it.Val
+		case "iflet":
+			// a let inside a branch of an if: branches have no scope of their own, the name is bound
+			// in the scope the if stands in - and in no outer one
+			if it.Val%2 == 0 {
+				src.WriteString(fmt.Sprintf("<%% if (true) { let %s = %s } %%>", it.Name, vs09(it.Val)))
+			} else {
+				src.WriteString(fmt.Sprintf("<%% if (false) { let %s = 0 } else { %%><%% let %s = %s %%><%% } %%>", it.Name, it.Name, vs09(it.Val)))
+			}
+			env.vars[it.Name] = it.Val
 		case "set":
 			if _, ok := env.get(it.Name); !ok {
 				continue // assignment to an unknown name is an error: not generated
@@ -133,6 +142,12 @@ func render09(items []sitem, env *env09, parts map[string]string, ctr *int, src,
 				src.WriteString(fmt.Sprintf("<%% let fn%d = fn(v) { %%>", id))
 				render09(it.Body, inner, parts, ctr, src, out)
 				src.WriteString(fmt.Sprintf("<%% } %%><%%= fn%d(%s) %%>", id, vs09(it.Val)))
+			case "fn0":
+				// a function without parameters: its body still runs in a scope of its own
+				delete(inner.vars, "v")
+				src.WriteString(fmt.Sprintf("<%% let fz%d = fn() { %%>", id))
+				render09(it.Body, inner, parts, ctr, src, out)
+				src.WriteString(fmt.Sprintf("<%% } %%><%%= fz%d() %%>", id))
 			case "partial":
 				render09(it.Body, inner, parts, ctr, &bsrc, out)
 				name := fmt.Sprintf("part%d", id)
@@ -178,7 +193,7 @@ func gen09x(r *Rng, depth int, top bool) []sitem {
 		case x < 3:
 			items = append(items, sitem{Kind: "probe", Name: name})
 		case x < 5:
-			items = append(items, sitem{Kind: "let", Name: name, Val: 1 + r.Intn(8)})
+			items = append(items, sitem{Kind: []string{"let", "let", "iflet"}[r.Intn(3)], Name: name, Val: 1 + r.Intn(8)})
 		case x < 6:
 			items = append(items, sitem{Kind: "set", Name: name, Val: 1 + r.Intn(8)})
 		case x < 7 && r.Intn(3) == 0:
@@ -191,7 +206,7 @@ func gen09x(r *Rng, depth int, top bool) []sitem {
 			items = append(items, sitem{Kind: k, Val: 1 + r.Intn(8), Name: []string{"v", "v", "a", "b", ""}[r.Intn(5)]})
 		default:
 			if depth > 0 {
-				k := []string{"for", "fn", "partial", "content", "blkctx", "defblk", "forit"}[r.Intn(7)]
+				k := []string{"for", "fn", "partial", "content", "blkctx", "defblk", "forit", "fn0"}[r.Intn(8)]
 				val := 1 + r.Intn(8)
 				if r.Intn(8) == 0 {
 					val = nil09
@@ -235,7 +250,16 @@ func init() {
 		}
 		body := []sitem{{Kind: "probe", Name: "a"}, {Kind: "probe", Name: "v"}, {Kind: "let", Name: "a", Val: 7}, {Kind: "let", Name: "b", Val: 8}, {Kind: "set", Name: "v", Val: 9}, {Kind: "probe", Name: "a"}, {Kind: "probe", Name: "b"}, {Kind: "probe", Name: "v"}}
 		tail := []sitem{{Kind: "probe", Name: "a"}, {Kind: "probe", Name: "b"}, {Kind: "probe", Name: "v"}}
-		kinds := []string{"for", "fn", "partial", "content", "blkctx", "defblk", "forit"}
+		kinds := []string{"for", "fn", "partial", "content", "blkctx", "defblk", "forit", "fn0"}
+		// bodies whose only bindings are lets nested in if / else branches (no let at their top level)
+		for _, k1 := range kinds {
+			for _, val := range []int{4, 5} {
+				nested := []sitem{{Kind: "probe", Name: "a"}, {Kind: "iflet", Name: "a", Val: val}, {Kind: "iflet", Name: "b", Val: val + 2}, {Kind: "probe", Name: "a"}, {Kind: "probe", Name: "b"}}
+				for _, pre := range [][]sitem{nil, {{Kind: "let", Name: "a", Val: 1}}} {
+					judge(append(append(append([]sitem{}, pre...), sitem{Kind: k1, Val: 3, Body: nested}), []sitem{{Kind: "probe", Name: "a"}, {Kind: "probe", Name: "b"}, {Kind: "probe", Name: "v"}}...), "nested-let")
+				}
+			}
+		}
 		for _, k1 := range kinds {
 			for _, pre := range [][]sitem{nil, {{Kind: "let", Name: "a", Val: 1}}, {{Kind: "let", Name: "a", Val: 1}, {Kind: "let", Name: "v", Val: 2}}} {
 				judge(append(append(append([]sitem{}, pre...), sitem{Kind: k1, Val: 3, Body: body}), tail...), "single")
